@@ -553,6 +553,12 @@ func (c *FnCtx) lockOp(p *Path, m Val, mode int, acquire bool) {
 	c.oblige(p, "lock", "unlock_held_"+shortKey(key), fmt.Sprintf("(= %s %d)", cur, mode), "releasing "+key+" in the mode it is held", nil)
 	p.assume(fmt.Sprintf("(= %s %d)", cur, mode))
 	c.monitorRelease(p, key, m, mode)
+	for i := len(p.held) - 1; i >= 0; i-- {
+		if p.held[i] == key {
+			p.held = append(p.held[:i:i], p.held[i+1:]...)
+			break
+		}
+	}
 	arr = c.heapGet(&p.heap, key, "Int")
 	p.heap.m[key] = fmt.Sprintf("(store %s %s 0)", arr, m.T)
 }
